@@ -43,6 +43,7 @@ type ctxCase struct {
 	ObsScript [][]int    `json:"obs_scripts"` // sorted
 	Err       bool       `json:"err"`
 	BadBoost  bool       `json:"bad_boost"` // some boost is NaN / Inf / < 1
+	Probe     []ctxBoost `json:"probe"`     // boosts of a fixed second directory (.git and a Dockerfile) analysed right after this one
 }
 
 var ctxNames = []string{".git", "Dockerfile", "docker-compose.yml", "docker-compose.yaml", "package.json", "node_modules", "yarn.lock", "pnpm-lock.yaml",
@@ -142,6 +143,13 @@ func ctxRun(c *ctxCase, dir string) {
 	}
 	sort.Strings(ks)
 	c.ObsScript = intsList(ks)
+	// what was analysed before must not matter: a fixed directory analysed now must get the boosts of ITS listing
+	pd := filepath.Join(dir, "probe")
+	os.MkdirAll(filepath.Join(pd, ".git"), 0o755)
+	os.WriteFile(filepath.Join(pd, "Dockerfile"), nil, 0o644)
+	if pp, err := wctx.NewAnalyzer().AnalyzeDirectory(pd); err == nil && pp != nil {
+		c.Probe, _ = ctxSorted(pp.GetContextBoosts())
+	}
 	if pc2, err := wctx.NewAnalyzer().AnalyzeDirectory(d); err == nil && pc2 != nil {
 		c.Types2 = ctxTypes(pc2)
 		c.Boosts2, _ = ctxSorted(pc2.GetContextBoosts())
